@@ -10,10 +10,11 @@
 EXTENDS Json, IOUtils, TLC, Sequences, Integers
 Rec == ndJsonDeserialize(IOEnv.TRACE)
 NRec == Len(Rec)
-Expect(cond, info) == cond \/ (PrintT(<<"MISMATCH", info>>) /\ FALSE)
+(* IF, not \/: inside an action TLC would explore both disjuncts *)
+Expect(cond, info) == IF cond THEN TRUE ELSE PrintT("MISMATCH " \o ToJson(info)) /\ FALSE
 (* register 1: the furthest event index reached (single worker) *)
 Mark(l) == TLCSet(1, l)
 Accepted == IF TLCGet(1) = NRec + 1 THEN TRUE
-            ELSE /\ PrintT(<<"REJECTED-AT", TLCGet(1), IF TLCGet(1) <= NRec THEN ToJson(Rec[TLCGet(1)]) ELSE "eof">>)
+            ELSE /\ PrintT("REJECTED-AT " \o ToString(TLCGet(1)))
                  /\ FALSE
 =============================================================================
